@@ -368,7 +368,9 @@ def c10_6(ctx, r):
     rx = _single_return(glf)
     r.check(rx is not None and ctx.src(rx).replace(" ", "") == "os.path.join(path,Cluster.LOCK_FILE)", "lock file = <path>/<LOCK_FILE>", key_of(glf, "lock file"), glf.loc(), f"get_lock_file returns `{ctx.src(rx) if rx is not None else None}`")
     init = ctx.fn("Cluster.__init__", "C10.6")
-    ok = any(isinstance(n, ast.Assign) and ctx.src(n.targets[0]) == "self._lock_file" and ctx.src(n.value) == "self.get_lock_file(self._config.path)" for n in iter_own(init.node))
+    from ..lib import inlined_expr
+
+    ok = any(isinstance(n, ast.Assign) and ctx.src(n.targets[0]) == "self._lock_file" and ctx.src(inlined_expr(ctx, init, n.value)) == "self.get_lock_file(self._config.path)" for n in iter_own(init.node))
     r.check(ok, "instance methods lock get_lock_file(config.path)", key_of(init, "instance lock file"), init.loc(), "Cluster.__init__ derives its lock file differently from the static entry: two processes use different locks",
             "At most one process at a time is promoted")
     st = ctx.fn("Cluster.do_action_under_lock", "C10.6")
